@@ -70,6 +70,59 @@ impl PartialEq for ZDrop {
         true
     }
 }
+// arithmetic (operation `VArith`): every operator destroys all operands but one
+impl std::ops::Add<ZDrop> for ZDrop {
+    type Output = ZDrop;
+    fn add(self, rhs: ZDrop) -> ZDrop {
+        drop(rhs);
+        self
+    }
+}
+impl<'a> std::ops::Add<&'a ZDrop> for ZDrop {
+    type Output = ZDrop;
+    fn add(self, _rhs: &'a ZDrop) -> ZDrop {
+        self
+    }
+}
+impl std::ops::Mul<ZDrop> for ZDrop {
+    type Output = ZDrop;
+    fn mul(self, rhs: ZDrop) -> ZDrop {
+        drop(self);
+        rhs
+    }
+}
+impl std::ops::AddAssign<ZDrop> for ZDrop {
+    fn add_assign(&mut self, rhs: ZDrop) {
+        drop(rhs);
+    }
+}
+impl std::ops::Neg for ZDrop {
+    type Output = ZDrop;
+    fn neg(self) -> ZDrop {
+        self
+    }
+}
+impl vek::num_traits::MulAdd<ZDrop, ZDrop> for ZDrop {
+    type Output = ZDrop;
+    fn mul_add(self, a: ZDrop, b: ZDrop) -> ZDrop {
+        drop(a);
+        drop(self);
+        b
+    }
+}
+impl vek::num_traits::Zero for ZDrop {
+    fn zero() -> ZDrop {
+        ZDrop::new()
+    }
+    fn is_zero(&self) -> bool {
+        false
+    }
+}
+impl vek::num_traits::One for ZDrop {
+    fn one() -> ZDrop {
+        ZDrop::new()
+    }
+}
 impl Item for ZDrop {
     const W: usize = 1;
     fn grp(&self) -> Grp {
